@@ -465,9 +465,11 @@ def _from_name(f, o, depth=8):
             srcs = []
             for d in disp:
                 od = f.origin(d.args[0])
-                if od.get("kind") == "agg":
+                if od.get("kind") == "agg":       # the `(&a, &b)` tuple of format_args!, not projected
                     for op in od["rv"]["ops"]:
                         srcs.append(f.origin(op))
+                else:                              # lib/mir.py resolves `tuple.N` to the operand itself
+                    srcs.append(od)
             has_key = any(s.get("kind") == "call" and mir.norm(s["call"].callee).endswith("Resolve::name_world_key")
                           for s in srcs)
             has_name = any(is_arg_field(s, a_func, "name") for s in srcs)
